@@ -68,7 +68,15 @@ where
         let store = Vec::from(bytes);
         // add data to entries
         for entry in &mut entries {
-            let mut remaining = &bytes[entry.offset as usize..];
+            let mut remaining = usize::try_from(entry.offset)
+                .ok()
+                .and_then(|offset| bytes.get(offset..))
+                .ok_or_else(|| {
+                    Error::Nom(format!(
+                        "index entry offset {} is outside of the data section",
+                        entry.offset
+                    ))
+                })?;
 
             match &mut entry.data {
                 IndexData::Null => {}
